@@ -162,7 +162,7 @@ func c19DirBit(incoming bool) int {
 }
 
 func TestC19_ReloadRevalidation(t *testing.T) {
-	vk.Check(t, 2500, func(rt *rapid.T) {
+	vk.Check(t, 6000, func(rt *rapid.T) {
 		rapid.SyncTest(rt, c19History)
 	})
 }
@@ -368,8 +368,8 @@ func c19History(rt *rapid.T) {
 		next.Invalid = false
 		nextNode := certNode
 		what := rapid.SampledFrom([]string{"identical", "settings-only", "settings-only", "new-rules", "new-rules", "revert", "edit-rules", "invalid", "cert-unsafe", "dlca", "many-then-new-rules"}).Draw(rt, "reloadKind")
-		if what == "many-then-new-rules" && rapid.IntRange(0, 4).Draw(rt, "manyGate") != 0 {
-			what = "new-rules" // the burst costs hundreds of reloads: keep it to about one reload step in fifty
+		if what == "many-then-new-rules" && rapid.IntRange(0, 11).Draw(rt, "manyGate") != 0 {
+			what = "new-rules" // the burst costs hundreds of reloads: keep it to about one reload step in a hundred
 		}
 		switch what {
 		case "many-then-new-rules":
